@@ -235,6 +235,11 @@ pub fn run_on_pristine_thread(
     }
 }
 
+/// initialisation of a process that executes scenarios on its main thread (validation tools)
+pub fn init_single_process(prop: &'static dyn Prop) {
+    worker_init(prop);
+}
+
 fn worker_init(prop: &'static dyn Prop) {
     seams::install_panic_hook();
     seams::set_env_seed(0xC0FFEE);
